@@ -1,0 +1,21 @@
+//go:build verif && linux && !android
+
+package virtio
+
+// Verification hooks (engine `segment`): thin wrappers, no behaviour.
+
+func VerifFoldComplement(sum uint32) uint16 { return foldComplement(sum) }
+
+func VerifSegCount(payLen, gsoSize int) int { return segCount(payLen, gsoSize) }
+
+func VerifBasePseudoSum(pkt []byte, isV4 bool, proto uint32) uint32 {
+	return basePseudoSum(pkt, isV4, proto)
+}
+
+func VerifBaseIPv4HdrSum(pkt []byte, csumStart int) (uint32, error) {
+	return baseIPv4HdrSum(pkt, csumStart)
+}
+
+func VerifBaseTCPHdrSum(pkt []byte, csumStart, headerLen int) uint32 {
+	return baseTCPHdrSum(pkt, csumStart, headerLen)
+}
